@@ -3,7 +3,9 @@
 package main
 
 import (
+	"encoding/json"
 	"fmt"
+	"kverif/internal/mut"
 	"kverif/internal/norm"
 	"os"
 	"os/exec"
@@ -38,7 +40,7 @@ func main() {
 		tier = "quick"
 	}
 	seed, _ := strconv.Atoi(os.Getenv("VERIF_SEED"))
-	var prop, controlPatch string
+	var prop, controlPatch, mutateKind string
 	for i := 0; i < len(args); i++ {
 		switch args[i] {
 		case "--tier":
@@ -67,6 +69,11 @@ func main() {
 			}
 			rules.Dump(p, args[i+1], args[i+2], args[i+3], args[i+4])
 			os.Exit(0)
+		case "--mutate":
+			if i+1 < len(args) {
+				mutateKind = args[i+1]
+				i++
+			}
 		case "--control":
 			if i+1 < len(args) {
 				controlPatch = args[i+1]
@@ -109,6 +116,9 @@ func main() {
 	if !ok {
 		fmt.Println("unknown property", prop)
 		os.Exit(2)
+	}
+	if mutateKind != "" {
+		os.Exit(runMutate(repo, home, prop, mutateKind, controlPatch, fn))
 	}
 	if controlPatch != "" {
 		os.Exit(runControl(repo, home, prop, controlPatch, fn))
@@ -161,6 +171,123 @@ func main() {
 	os.Exit(run.Finish(home, extra))
 }
 
+// alarmKeys lists the obligations of a run that are not discharged, leaving out recorded known findings.
+func alarmKeys(home, prop string, run *report.Run, detail bool) []string {
+	known, _ := report.LoadKnown(filepath.Join(home, "known_findings.json"))
+	isKnown := map[string]bool{}
+	if known != nil {
+		for _, k := range known.Findings {
+			if k.Property == prop {
+				isKnown[k.Key] = true
+			}
+		}
+	}
+	var keys []string
+	for _, o := range run.Obls {
+		if o.Status == report.Discharged || isKnown[o.Key] {
+			continue
+		}
+		if detail {
+			keys = append(keys, o.Key+" ["+o.Detail+"]")
+		} else {
+			keys = append(keys, o.Key)
+		}
+	}
+	sort.Strings(keys)
+	return keys
+}
+
+// runMutate applies a mechanical behaviour-preserving mutator (package mut) to the property's anchored files as an
+// overlay and runs the rules: they must stay silent. Exit: 0 silent, 3 alarm, 4 the variant does not load.
+func runMutate(repo, home, prop, kind, patch string, fn func(*rules.Ctx)) int {
+	var overlay0 map[string][]byte
+	if patch != "" {
+		var perr error
+		overlay0, perr = overlayFromPatch(repo, patch)
+		if perr != nil {
+			fmt.Printf("MUTATE stale patch=%s reason=%v\n", patch, perr)
+			return 4
+		}
+	}
+	base, err := load.Load(repo, nil, overlay0)
+	if err != nil {
+		fmt.Println("MUTATE stale: ", err)
+		return 4
+	}
+	files := map[string]bool{}
+	data, _ := os.ReadFile(filepath.Join(home, "properties.jsonl"))
+	for _, line := range strings.Split(string(data), "\n") {
+		if !strings.Contains(line, `"id": "`+prop+`"`) && !strings.Contains(line, `"id":"`+prop+`"`) {
+			continue
+		}
+		var p struct {
+			Anchors struct {
+				Files []string `json:"files"`
+			} `json:"anchors"`
+		}
+		if json.Unmarshal([]byte(line), &p) == nil {
+			for _, f := range p.Anchors.Files {
+				files[filepath.Join(repo, f)] = true
+			}
+		}
+	}
+	for f := range overlay0 {
+		files[f] = true
+	}
+	overlay, n, err := mut.Variant(base.Fset, base.Pkgs, files, kind, overlay0)
+	for f, b := range overlay0 {
+		if _, ok := overlay[f]; !ok && overlay != nil {
+			overlay[f] = b
+		}
+	}
+	if err != nil || n == 0 {
+		fmt.Printf("MUTATE stale kind=%s edits=%d err=%v\n", kind, n, err)
+		return 4
+	}
+	p, err := load.LoadNormalized(repo, nil, overlay, filepath.Join(home, "reference", "known_funcs.txt"))
+	if err != nil {
+		fmt.Printf("MUTATE stale kind=%s edits=%d reason=load: %v\n", kind, n, err)
+		return 4
+	}
+	run := report.NewRun(prop, "quick", 0)
+	ctx := &rules.Ctx{P: p, R: run, Tier: "quick", Home: home}
+	func() {
+		defer func() {
+			if e := recover(); e != nil {
+				run.Unknown("PANIC", "checker", "", fmt.Sprint(e))
+			}
+		}()
+		fn(ctx)
+	}()
+	keys := alarmKeys(home, prop, run, true)
+	note := fmt.Sprintf("files=%d edits=%d unknown=%d inlined=%d left=%d notes=%v", len(overlay), n, len(p.NewFuncs), len(p.Inlined), len(p.Skipped), p.Notes)
+	if os.Getenv("KVERIF_DEBUG") != "" {
+		inl := map[string]bool{}
+		for _, x := range p.Inlined {
+			inl[x] = true
+		}
+		fmt.Println("SKIPPED:", strings.Join(p.Skipped, "\n  "))
+		fmt.Println("INLINED-AWAY:", len(p.InlinedAway))
+		for _, f := range p.NewFuncs {
+			found := false
+			for _, x := range p.Inlined {
+				if strings.Contains(x, "<- "+f[strings.LastIndex(f, ".")+1:]+" ") {
+					found = true
+				}
+			}
+			if !found {
+				fmt.Println("NOT-INLINED:", f)
+			}
+		}
+	}
+	if len(keys) == 0 {
+		fmt.Printf("MUTATE silent kind=%s %s\n", kind, note)
+		return 0
+	}
+	fmt.Printf("MUTATE alarm kind=%s %s n=%d\n  %s\n", kind, note, len(keys), strings.Join(keys, "\n  "))
+	return 3
+}
+
 // runControl applies a seeded patch as a go/packages overlay (nothing is written into /repo, nothing is executed),
 // runs the property's rules and reports whether they fire. Exit: 0 fired, 3 not fired, 4 stale (patch does not apply).
 func runControl(repo, home, prop, patch string, fn func(*rules.Ctx)) int {
@@ -184,13 +311,7 @@ func runControl(repo, home, prop, patch string, fn func(*rules.Ctx)) int {
 		}()
 		fn(ctx)
 	}()
-	var keys []string
-	for _, o := range run.Obls {
-		if o.Status != report.Discharged {
-			keys = append(keys, o.Key)
-		}
-	}
-	sort.Strings(keys)
+	keys := alarmKeys(home, prop, run, false)
 	if len(keys) == 0 {
 		fmt.Printf("CONTROL missed patch=%s\n", patch)
 		return 3
